@@ -214,7 +214,12 @@ class Interp(Ops):
             return _or([self.eq(x, y) for y in self.items_of(container)])
         if isinstance(container, VDict):
             d = self.st.heap[(container.ref, "items")]
-            kx = self.concrete_key(x)
+            try:
+                kx = self.concrete_key(x)
+            except Unsupported:
+                if isinstance(x, VStr):
+                    return _or([x.term == z3.StringVal(k) for k in d if isinstance(k, str)])
+                raise
             return kx in d
         if isinstance(container, VSet):
             return z3.Select(self.st.heap[(container.ref, "set")], term_of(x))
